@@ -451,6 +451,44 @@ harness! {
 // ---------------------------------------------------------------------------
 // whole iterations through `for_each!` (thorough)
 
+macro_rules! c09_for_range_q {
+    ($name:ident, $t:ty) => {
+        harness! {
+            /// kind=bounded tier=quick bound="konst::for_range!{x in a..b => ..} for every (a,b) of the type, observed for the first 6 iterations: same number of iterations (0 for empty and inverted ranges) and the same values in the same order as `a..b` of std; the body breaks after 6 iterations"
+            #[kani::unwind(9)]
+            fn $name(s) {
+                let a = <$t as Dom>::draw(s);
+                let b = <$t as Dom>::draw(s);
+                let mut got: [Option<$t>; 6] = [None; 6];
+                let mut n = 0usize;
+                konst::for_range! {x in a..b =>
+                    if n >= 6 {
+                        break;
+                    }
+                    got[n] = Some(x);
+                    n += 1;
+                }
+                let mut it = a..b;
+                let mut k = 0usize;
+                let mut same = true;
+                while k < 6 {
+                    if got[k] != it.next() {
+                        same = false;
+                    }
+                    k += 1;
+                }
+                chk!(s, same, "C09.for_range.first_six_values_eq_std");
+                cov!(s, n == 3, "C09.cover.for_range_three_iterations");
+                cov!(s, n == 0 && a > b, "C09.cover.for_range_inverted");
+            }
+        }
+    };
+}
+c09_for_range_q! {c09_for_range_u8, u8}
+c09_for_range_q! {c09_for_range_i8, i8}
+c09_for_range_q! {c09_for_range_usize, usize}
+c09_for_range_q! {c09_for_range_i128, i128}
+
 c09_whole_t! {c09_for_each_range_u8, u8, |a, b| [a..b], a..b, 255}
 c09_whole_t! {c09_for_each_range_rev_u8, u8, |a, b| [a..b, rev()], (a..b).rev(), 255}
 c09_whole_t! {c09_for_each_rangeinc_u8, u8, |a, b| [a..=b], a..=b, 256}
